@@ -93,7 +93,77 @@ theorem getElem_lt_nextChar {data : List Byte} {tok : Byte} {i : Nat} (h : i < n
     simp [hc] at this
 
 
-theorem hashId_cmdIds (msg : List Byte) (hd : hashInDomain msg = true) :
+theorem memtokGo_bounds {l : List Byte} {pos q : Nat} {m prev : Byte} (h : memtokGo l pos m prev = some q) :
+    pos ≤ q ∧ q < pos + l.length := by
+  induction l generalizing pos m prev with
+  | nil => simp [memtokGo] at h
+  | cons c rest ih =>
+    unfold memtokGo at h
+    simp only [List.length_cons]
+    split at h
+    · have := ih h; omega
+    · split at h
+      · have := ih h; omega
+      · split at h
+        · simp only [Option.some.injEq] at h; omega
+        · have := ih h; omega
+
+theorem memtok_zero {data : List Byte} (h : memtok data = some 0) : ∃ c rest, data = c :: rest ∧ isTokWs c = true := by
+  unfold memtok at h
+  cases data with
+  | nil => simp [memtokGo] at h
+  | cons c rest =>
+    refine ⟨c, rest, rfl, ?_⟩
+    unfold memtokGo at h
+    simp only [ne_eq, not_true_eq_false, if_false] at h
+    split at h
+    · have := (memtokGo_bounds h).1; omega
+    · split at h
+      · assumption
+      · have := (memtokGo_bounds h).1; omega
+
+theorem tokWs_space {c : Byte} (h : isTokWs c = true) : isSpace c = true := by
+  unfold isTokWs at h
+  unfold isSpace
+  simp only [Bool.or_eq_true, beq_iff_eq] at h
+  rcases h with (((h | h) | h) | h) | h <;> subst h <;> decide
+
+theorem take_mem_prefixes {t : List Byte} {n : Nat} (h0 : 0 < n) (hn : n ≤ t.length) : t.take n ∈ prefixes t := by
+  unfold prefixes
+  simp only [List.mem_map, List.mem_range]
+  exact ⟨n - 1, by omega, by congr 1; omega⟩
+
+theorem nextChar_le (data : List Byte) (tok : Byte) : nextChar data tok ≤ data.length := by
+  rw [nextChar_len]; exact (List.takeWhile_sublist _).length_le
+
+theorem nextChar_zero_head {data : List Byte} {tok : Byte} (hne : data ≠ []) (h : nextChar data tok = 0) :
+    data.head? = some tok := by
+  cases data with
+  | nil => exact absurd rfl hne
+  | cons c rest =>
+    rw [nextChar_len, List.takeWhile_cons] at h
+    by_cases hc : c = tok
+    · simp [hc]
+    · have : (c != tok) = true := by simpa using hc
+      simp [this] at h
+
+theorem argWs_spec (d : List Byte) :
+    argWs d ≤ d.length ∧ (argWs d = 0 → d ≠ [] → (∃ c rest, d = c :: rest ∧ isTokWs c = true) ∨ d.head? = some 0) := by
+  unfold argWs
+  cases hm : memtok d with
+  | some p =>
+    have hb := memtokGo_bounds (l := d) (pos := 0) hm
+    refine ⟨by simp only; omega, ?_⟩
+    intro h0 _
+    simp only at h0
+    subst h0
+    exact Or.inl (memtok_zero hm)
+  | none =>
+    refine ⟨nextChar_le _ _, ?_⟩
+    intro h0 hne'
+    exact Or.inr (nextChar_zero_head hne' h0)
+
+theorem hashId_cmdIds (msg : List Byte) :
     (∃ v, hashId msg = .id v ∧ some v ∈ cmdIds msg) ∨ (hashId msg = .fail ∧ none ∈ cmdIds msg) := by
   unfold hashId cmdIds
   match msg with
@@ -101,22 +171,10 @@ theorem hashId_cmdIds (msg : List Byte) (hd : hashInDomain msg = true) :
   | [_] => right; simp
   | ty :: arg :: payload =>
     simp only
-    generalize hsep : (if ty = msgCommand then arg else 0) = sep
-    have hdom : ¬ (sep ≠ 0 ∧ (!isGraph sep) = true) := by
-      unfold hashInDomain at hd
-      simp only [Bool.not_eq_true', Bool.and_eq_false_imp, Bool.not_eq_false'] at hd
-      intro hc
-      by_cases hty : ty = msgCommand
-      · simp only [hty, if_true] at hsep
-        subst hsep
-        have := hd (by simp [hty, hc.1])
-        simp [this] at hc
-      · simp only [hty, if_false] at hsep
-        exact hc.1 hsep.symm
-    rw [if_neg hdom]
+    generalize (if ty = msgCommand then arg else 0) = sep
     unfold messageArgv
     by_cases hemp : payload = []
-    · subst hemp; right; simp
+    · subst hemp; right; simp [prefixes]
     · have hne : payload.isEmpty = false := by simpa using hemp
       simp only [hne, Bool.false_eq_true, if_false]
       by_cases hs0 : sep = 0
@@ -138,45 +196,102 @@ theorem hashId_cmdIds (msg : List Byte) (hd : hashInDomain msg = true) :
           refine ⟨_, rfl, ?_⟩
           rw [take_nextChar, mptHash_eq]; simp
       · simp only [hs0, if_false, false_and]
-        cases hf : payload.findIdx? (fun c => !isSpace c) with
-        | none =>
-          -- all white space: nothing is trimmed
-          simp only
-          rw [List.findIdx?_eq_none_iff] at hf
-          have hall : ∀ x, x ∈ payload → isSpace x = true := by
-            intro x hx; have := hf x hx; simpa using this
-          rw [dropWhile_all isSpace payload hall]
-          simp only [List.takeWhile_nil, List.isEmpty_nil, if_true]
-          have hlen := nextChar_len payload sep
-          by_cases hz : nextChar payload sep = 0
-          · right
-            have : (payload.takeWhile (· != sep)).isEmpty = true := by
-              rw [List.isEmpty_iff_length_eq_zero, ← hlen]; exact hz
-            simp [hz, this]
-          · left
-            have hnz : (payload.takeWhile (· != sep)).isEmpty = false := by
-              rw [← Bool.not_eq_true, List.isEmpty_iff_length_eq_zero, ← hlen]; exact hz
-            simp only [hz, if_false, hnz, Bool.false_eq_true]
-            refine ⟨_, rfl, ?_⟩
-            rw [take_nextChar, mptHash_eq]; simp
-        | some p =>
-          simp only
-          have hdw : payload.drop p = payload.dropWhile isSpace := by
-            have := drop_findIdx_some (fun c => !isSpace c) payload hf
-            simpa using this
-          rw [hdw]
-          have hlen := nextChar_len (payload.dropWhile isSpace) sep
-          by_cases hz : nextChar (payload.dropWhile isSpace) sep = 0
-          · right
-            have : ((payload.dropWhile isSpace).takeWhile (· != sep)).isEmpty = true := by
-              rw [List.isEmpty_iff_length_eq_zero, ← hlen]; exact hz
-            simp only [hz, if_true, this, true_and]
-            split <;> simp
-          · left
-            have hnz : ((payload.dropWhile isSpace).takeWhile (· != sep)).isEmpty = false := by
-              rw [← Bool.not_eq_true, List.isEmpty_iff_length_eq_zero, ← hlen]; exact hz
-            simp only [hz, if_false, hnz, Bool.false_eq_true]
-            refine ⟨_, rfl, ?_⟩
-            rw [take_nextChar, mptHash_eq]; simp
+        by_cases hgr : isGraph sep = true
+        · simp only [hgr, if_true]
+          cases hf : payload.findIdx? (fun c => !isSpace c) with
+          | none =>
+            -- all white space: nothing is trimmed
+            simp only
+            rw [List.findIdx?_eq_none_iff] at hf
+            have hall : ∀ x, x ∈ payload → isSpace x = true := by
+              intro x hx; have := hf x hx; simpa using this
+            rw [dropWhile_all isSpace payload hall]
+            simp only [List.takeWhile_nil, List.isEmpty_nil, if_true]
+            have hlen := nextChar_len payload sep
+            by_cases hz : nextChar payload sep = 0
+            · right
+              have : (payload.takeWhile (· != sep)).isEmpty = true := by
+                rw [List.isEmpty_iff_length_eq_zero, ← hlen]; exact hz
+              simp [hz, this]
+            · left
+              have hnz : (payload.takeWhile (· != sep)).isEmpty = false := by
+                rw [← Bool.not_eq_true, List.isEmpty_iff_length_eq_zero, ← hlen]; exact hz
+              simp only [hz, if_false, hnz, Bool.false_eq_true]
+              refine ⟨_, rfl, ?_⟩
+              rw [take_nextChar, mptHash_eq]; simp
+          | some p =>
+            simp only
+            have hdw : payload.drop p = payload.dropWhile isSpace := by
+              have := drop_findIdx_some (fun c => !isSpace c) payload hf
+              simpa using this
+            rw [hdw]
+            have hlen := nextChar_len (payload.dropWhile isSpace) sep
+            by_cases hz : nextChar (payload.dropWhile isSpace) sep = 0
+            · right
+              have : ((payload.dropWhile isSpace).takeWhile (· != sep)).isEmpty = true := by
+                rw [List.isEmpty_iff_length_eq_zero, ← hlen]; exact hz
+              simp only [hz, if_true, this, true_and]
+              split <;> simp
+            · left
+              have hnz : ((payload.dropWhile isSpace).takeWhile (· != sep)).isEmpty = false := by
+                rw [← Bool.not_eq_true, List.isEmpty_iff_length_eq_zero, ← hlen]; exact hz
+              simp only [hz, if_false, hnz, Bool.false_eq_true]
+              refine ⟨_, rfl, ?_⟩
+              rw [take_nextChar, mptHash_eq]; simp
+        · -- white-space separated arguments with quoting
+          have hgr' : isGraph sep = false := by simpa using hgr
+          simp only [hgr', Bool.false_eq_true, if_false]
+          cases hf : payload.findIdx? (fun c => !isSpace c) with
+          | none =>
+            simp only
+            rw [List.findIdx?_eq_none_iff] at hf
+            have hall : ∀ x, x ∈ payload → isSpace x = true := by
+              intro x hx; have := hf x hx; simpa using this
+            rw [dropWhile_all isSpace payload hall]
+            simp only [List.isEmpty_nil, if_true]
+            obtain ⟨hle, _⟩ := argWs_spec payload
+            by_cases hz : argWs payload = 0
+            · right; simp [hz]
+            · left
+              simp only [hz, if_false]
+              refine ⟨_, rfl, ?_⟩
+              rw [mptHash_eq]
+              simp only [List.mem_cons, reduceCtorEq, List.mem_map, Option.some.injEq, false_or]
+              exact ⟨_, take_mem_prefixes (by omega) hle, rfl⟩
+          | some p =>
+            simp only
+            have hdw : payload.drop p = payload.dropWhile isSpace := by
+              have := drop_findIdx_some (fun c => !isSpace c) payload hf
+              simpa using this
+            rw [hdw]
+            have htne : payload.dropWhile isSpace ≠ [] := by
+              rw [← hdw]
+              rw [List.findIdx?_eq_some_iff_getElem] at hf
+              obtain ⟨hp, _, _⟩ := hf
+              intro hc
+              have := congrArg List.length hc
+              rw [List.length_drop, List.length_nil] at this
+              omega
+            have hte : (payload.dropWhile isSpace).isEmpty = false := by simpa using htne
+            simp only [hte, Bool.false_eq_true, if_false]
+            have hhead := List.head?_dropWhile_not isSpace payload
+            generalize payload.dropWhile isSpace = t at htne hte hhead
+            obtain ⟨hle, hzero⟩ := argWs_spec t
+            by_cases hz : argWs t = 0
+            · right
+              simp only [hz, if_true, true_and]
+              rcases hzero hz htne with ⟨c, rest, hc, hws⟩ | h0
+              · subst hc
+                simp only [List.head?_cons] at hhead
+                rw [tokWs_space hws] at hhead
+                cases hhead
+              · simp [h0]
+            · left
+              simp only [hz, if_false]
+              refine ⟨_, rfl, ?_⟩
+              rw [mptHash_eq]
+              simp only [List.mem_append, List.mem_map, Option.some.injEq]
+              right
+              exact ⟨_, take_mem_prefixes (by omega) hle, rfl⟩
 
 end Mpt.Dispatch
